@@ -27,7 +27,8 @@ def _check_effect_family(args):
     gall = sorted({v for gv in gfactors for v in gv})
     factors = sorted(set(eff_factors) | set(gall))
     numeric_parts = {tuple(sorted(f for f in t if f not in c03.CAT)) for t in terms}
-    wr = {"x": "bs(x, df=3)"} if atoms == "spline" else {}
+    # how the effect factors are written: plain, x as a spline, or the categorical ones wrapped in calls
+    wr = {"x": "bs(x, df=3)"} if atoms == "spline" else ({"f": "C(f)", "h": "C(h, Sum)"} if atoms == "calls" else {})
     xw = 3 if atoms == "spline" else 1
     total_w = sum(xw for part in numeric_parts if part)
     df, nlev = c03.make_data(rng, factors, total_w)
@@ -122,6 +123,7 @@ def effect_families(rep, seed, sample, gshapes):
     jobs = [(c, seed, g, "joint", "plain") for c in cases for g in gshapes]
     jobs += [(c, seed, "g", "split", "plain") for c in cases]
     jobs += [(c, seed, "g", "joint", "spline") for c in cases if any("x" in t for t in c["terms"])]
+    jobs += [(c, seed, "g", rd, "calls") for c in cases if any(f in t for t in c["terms"] for f in ("f", "h")) for rd in ("joint", "split")]
     # grouping expressions that distribute over several factors, and effects whose group intercept is implicit
     nog = [c for c in cases if all(f != "k" for t in c["terms"] for f in t)]
     jobs += [(c, seed, g, rd, "plain") for c in nog for g in ("g + k", "g/k") for rd in (["joint", "implicit"] if c["icpt"] else ["joint"])]
@@ -146,7 +148,7 @@ def main(tier, seed):
     rep.rule = (
         "Block structure: Design_MC small scope (group formulas 8-12) replayed + random builds with group terms judged by Design_Trace "
         "(cells = effect value on the rows of the group, slots in level order, effect fastest). Effect coding: every ordered family of "
-        "<= 2 effect terms (<= 2 factors) over {f,h,x} with and without '0 +', for grouping expressions g, g:k and C(g), on replicated "
+        "<= 2 effect terms (<= 2 factors) over {f,h,x} with and without '0 +', for grouping expressions g, g:k and C(g), with the effect factors plain, as a spline and wrapped in calls (C(f), C(h, Sum)), on replicated "
         "fully crossed data with random level counts; exact integer ranks against indicator(g) (x) full effect coding. "
         "Non-trivial = distinct effect families x grouping shapes, and distinct recorded builds with >= 4 columns."
     )
